@@ -796,6 +796,13 @@ func TestC18(t *testing.T) {
 		c.Class("%s/avps=%d", e.name, min(len(want), 12))
 		sig := func(op string) ev.Sig { return ev.Sig{"op": op, "shape": e.name} }
 		m := diam.NewMessage(e.cmd, diam.RequestFlag, 0, 1, 2, e.ctx.Parser)
+		if c.I%3 == 1 {
+			// the struct is marshalled into a message that already carries AVPs (an answer with
+			// its Result-Code): Marshal replaces them
+			m = m.Answer(2001)
+			c.Class("marshal-into-a-used-message")
+		}
+		pre := len(m.AVP)
 		var err error
 		if p, bad := guard(func() { err = m.Marshal(src) }); bad {
 			c.Fail(sig("marshal-panic"), nil, fmt.Sprintf("%+v", src), "Marshal panicked: %s", p)
@@ -809,6 +816,11 @@ func TestC18(t *testing.T) {
 		if terr != nil {
 			c.Fail(sig("marshal-avps"), nil, nil, "AVPs produced by Marshal: %v", terr)
 			return
+		}
+		if d := looseEqual(want, got); d != "" && pre > 0 && len(got) == pre+len(want) {
+			// the struct's AVPs after the ones the message already had: also what a caller would
+			// build by hand
+			got = got[pre:]
 		}
 		if d := looseEqual(want, got); d != "" {
 			c.Fail(sig("marshal-avps"), nil, map[string]any{"want": refcodec.Describe(want), "got": refcodec.Describe(got)}, "the AVPs produced by Marshal differ from the hand-built list: %s", d)
@@ -846,7 +858,27 @@ func TestC18(t *testing.T) {
 				c.Fail(sig("roundtrip-direct"), nil, fmt.Sprintf("%+v", src2), "a message marshalled, unmarshalled, marshalled again with other values and unmarshalled does not give the new values: %s", d)
 				return
 			}
-			c.Event("roundtrips", 1)
+			// and through the wire
+			wire2, err := m.Serialize()
+			if err != nil || int(m.Header.MessageLength) != len(wire2) {
+				c.Fail(sig("marshal-length"), nil, nil, "after marshalling the same message again: Serialize err=%v, Header.MessageLength=%d, %d bytes", err, m.Header.MessageLength, len(wire2))
+				return
+			}
+			rm2, err := diam.ReadMessage(bytes.NewReader(wire2), e.ctx.Parser)
+			if err != nil {
+				c.Fail(sig("read"), wire2, nil, "ReadMessage of a message that was marshalled twice: %v", err)
+				return
+			}
+			dst4 := e.mk()
+			if p, bad := guard(func() { err = rm2.Unmarshal(dst4) }); bad || err != nil {
+				c.Fail(sig("unmarshal-wire"), wire2, nil, "Unmarshal after the wire (message marshalled twice): err=%v %s", err, p)
+				return
+			}
+			if d := sameValue(reflect.ValueOf(src2).Elem(), reflect.ValueOf(dst4).Elem(), e.name); d != "" {
+				c.Fail(sig("roundtrip-wire"), wire2, fmt.Sprintf("%+v", src2), "a message marshalled a second time with other values does not give them after the wire: %s", d)
+				return
+			}
+			c.Event("roundtrips", 2)
 		}
 		// via the wire
 		rm, err := diam.ReadMessage(bytes.NewReader(wire), e.ctx.Parser)
